@@ -56,8 +56,11 @@ def load_known():
     return json.load(open(p))
 
 
+OUT = os.environ.get("PCFG_OUT", common.ROOT)   # where replays/ and evidence/ go (a scratch dir when a seeded change is evaluated)
+
+
 def write_replay(prop, tag, data):
-    d = os.path.join(common.ROOT, "replays")
+    d = os.path.join(OUT, "replays")
     os.makedirs(d, exist_ok=True)
     p = os.path.join(d, "%s_%s.json" % (prop, tag))
     with open(p, "w") as f:
@@ -184,7 +187,7 @@ def main():
         rp = write_replay(prop, "%d_%s" % (len(seen), re.sub(r"[^A-Za-z0-9]+", "_", v["sig"])[:40]),
                           {"property": prop, "seed": seed, "tier": tier, "sig": v["sig"], "what": v.get("what"),
                            "input": v.get("replay"), "broken": broken})
-        lines.append("VIOLATION property=%s replay=%s" % (prop, os.path.relpath(rp, common.ROOT)))
+        lines.append("VIOLATION property=%s replay=%s" % (prop, os.path.relpath(rp, OUT)))
         lines.append("  " + v.get("what", "")[:500])
         exit_code = 1
     if broken and not new_vio:
@@ -196,7 +199,7 @@ def main():
                                                "broken": broken,
                                                "detail": [o for o in obligations if not o[1]][:10]})
             lines.append("VIOLATION property=%s replay=%s no-failing-input-found" %
-                         (prop, os.path.relpath(rp, common.ROOT)))
+                         (prop, os.path.relpath(rp, OUT)))
             for b in broken[:5]:
                 lines.append("  no longer checks: " + b[:400])
             exit_code = 1
@@ -228,8 +231,8 @@ def main():
     }
     if ctx.notes:
         ev["coverage"]["notes"] = ctx.notes
-    os.makedirs(os.path.join(common.ROOT, "evidence"), exist_ok=True)
-    with open(os.path.join(common.ROOT, "evidence", prop + ".json"), "w") as f:
+    os.makedirs(os.path.join(OUT, "evidence"), exist_ok=True)
+    with open(os.path.join(OUT, "evidence", prop + ".json"), "w") as f:
         json.dump(ev, f, indent=1, default=str)
 
     for l in lines:
